@@ -28,6 +28,7 @@ out = ['# Which check reports which change (quick tier, seed 1)', '',
        '| change | check | result |', '|---|---|---|']
 for (name, pid), v in sorted(res.items()): out.append('| %s | %s | %s |' % (name, pid, v))
 out += ['', '`s_c09_r3_new_url_skips_clear_of_invalid` became behaviour-preserving with the repair F13 (814bb12: a failed parse leaves an empty url, so `is_valid()` and `!empty()` are the same test in `new_url()`); it was reported by C09 / C05 / C01 before that repair and is silent, rightly, since.']
+out += ['', '`s_c20_r7_href_in_place_when_empty` (href() parses in place when the target is empty) was written against the tree before the repair F19 (46fa9a3) and relied on `parse_search_params()` running outside the try block of `do_parse`; on the repaired tree it is behaviour-preserving (its own demo exits 0 with the change applied): silent, rightly. Its author\'s baseline report is what led to F19.']
 out += ['', '`s_c14_r4_static_scratch_buffer` (a static scratch string in check_fix_utf8) was written against C14 but leaves single-threaded behaviour unchanged for every input; it is registered for, and reported by, C19.', '', '`m34_dot_host` is property-equivalent (only the error code changes; `is_unc_path` rejects a "." host anyway): silence is correct.']
 open(os.path.join(VERIF, 'seeded', 'RESULTS.md'), 'w').write('\n'.join(out) + '\n')
 for d in glob.glob(os.path.join(VERIF, 'seeded', '*', 'meta.json')):
